@@ -48,26 +48,27 @@ Qed.
 Section Coupling.
   Variable mid : Q -> Q -> Q.
   Hypothesis mid_between : forall x y, x < y -> x < mid x y /\ mid x y < y.
-  Hypothesis mid_refl : forall x, mid x x == x.
-  Hypothesis mid_proper : forall x x' y y', x == x' -> y == y' -> mid x y == mid x' y'.
+  Hypothesis mid_refl : forall x, ~ x == 0 -> mid x x == x.
   Variable mass : Q -> Q -> Q.
-  Hypothesis mass_add : forall a b c, a <= b -> b <= c -> mass a c == mass a b + mass b c.
-  Hypothesis mass_pos : forall a b, a <= b -> 0 <= mass a b.
-  Hypothesis mass_proper : forall a a' b b', a == a' -> b == b' -> mass a b == mass a' b'.
+  Hypothesis mass_add : forall a b c, a <= b -> b <= c -> (c < 0 \/ 0 < a) -> mass a c == mass a b + mass b c.
+  Hypothesis mass_pos : forall a b, a <= b -> (b < 0 \/ 0 < a) -> 0 <= mass a b.
 
-  (* a state's rate is val_left + val_right *)
-  Lemma rate_split xs p : incr xs -> (p < length xs)%nat ->
+  (* a state's rate is val_left + val_right (its cell lies on one side of the origin) *)
+  Lemma rate_split xs p : incr xs -> ends_ok xs -> (p < length xs)%nat ->
+    (cell_hi mid xs p < 0 \/ 0 < cell_lo mid xs p) ->
     mass (cell_lo mid xs p) (cell_hi mid xs p) == val_left mid mass xs p + val_right mid mass xs p
     /\ 0 <= val_left mid mass xs p /\ 0 <= val_right mid mass xs p.
   Proof.
-    intros Hi Hp. destruct (cell_lo_le mid mid_between mid_refl xs p Hi Hp) as (A & _).
-    destruct (cell_hi_ge mid mid_between mid_refl xs p Hi Hp) as (B & _).
-    unfold val_left, val_right. split; [apply mass_add; assumption|]. split; apply mass_pos; assumption.
+    intros Hi He Hp Hs. destruct (cell_lo_le mid mid_between mid_refl xs p Hi He Hp) as (A & _).
+    destruct (cell_hi_ge mid mid_between mid_refl xs p Hi He Hp) as (B & _).
+    unfold val_left, val_right. split; [apply mass_add; assumption|].
+    split; apply mass_pos; try assumption; destruct Hs; [left|right|left|right]; lra.
   Qed.
 
-  Lemma prob_right_unit xs p pr : incr xs -> (p < length xs)%nat -> prob_right_at mid mass xs p = Some pr -> 0 <= pr <= 1.
+  Lemma prob_right_unit xs p pr : incr xs -> ends_ok xs -> (p < length xs)%nat ->
+    (cell_hi mid xs p < 0 \/ 0 < cell_lo mid xs p) -> prob_right_at mid mass xs p = Some pr -> 0 <= pr <= 1.
   Proof.
-    intros Hi Hp. destruct (rate_split xs p Hi Hp) as (_ & L & R). unfold prob_right_at.
+    intros Hi He Hp Hs. destruct (rate_split xs p Hi He Hp Hs) as (_ & L & R). unfold prob_right_at.
     destruct (Qeq_bool (val_left mid mass xs p + val_right mid mass xs p) 0) eqn:E; [discriminate|].
     intros H; injection H as <-. apply Qeq_bool_neq in E.
     set (vl := val_left mid mass xs p) in *. set (vr := val_right mid mass xs p) in *.
@@ -76,55 +77,138 @@ Section Coupling.
   Qed.
 
   (* rate * P(right) and rate * P(left): the two halves of the cell (also when the rate is 0) *)
-  Lemma flow_right xs o p : incr xs -> (p < length xs)%nat -> p <> o ->
+  Lemma flow_right xs o p : incr xs -> ends_ok xs -> (p < length xs)%nat -> p <> o ->
+    (cell_hi mid xs p < 0 \/ 0 < cell_lo mid xs p) ->
     q_entry mid mass xs o p * match prob_right_at mid mass xs p with None => 0 | Some pr => pr end == val_right mid mass xs p.
   Proof.
-    intros Hi Hp Hne. destruct (rate_split xs p Hi Hp) as (S & L & R). unfold q_entry.
+    intros Hi He Hp Hne Hs. destruct (rate_split xs p Hi He Hp Hs) as (S & L & R). unfold q_entry.
     destruct (Nat.eqb_spec p o); [contradiction|]. rewrite S. unfold prob_right_at.
     set (vl := val_left mid mass xs p) in *. set (vr := val_right mid mass xs p) in *.
     destruct (Qeq_bool (vl + vr) 0) eqn:E.
     - apply Qeq_bool_eq in E. lra.
     - apply Qeq_bool_neq in E. field. exact E.
   Qed.
-  Lemma flow_left xs o p : incr xs -> (p < length xs)%nat -> p <> o ->
+  Lemma flow_left xs o p : incr xs -> ends_ok xs -> (p < length xs)%nat -> p <> o ->
+    (cell_hi mid xs p < 0 \/ 0 < cell_lo mid xs p) ->
     q_entry mid mass xs o p * match prob_right_at mid mass xs p with None => 0 | Some pr => 1 - pr end == val_left mid mass xs p.
   Proof.
-    intros Hi Hp Hne. destruct (rate_split xs p Hi Hp) as (S & L & R). unfold q_entry.
+    intros Hi He Hp Hne Hs. destruct (rate_split xs p Hi He Hp Hs) as (S & L & R). unfold q_entry.
     destruct (Nat.eqb_spec p o); [contradiction|]. rewrite S. unfold prob_right_at.
     set (vl := val_left mid mass xs p) in *. set (vr := val_right mid mass xs p) in *.
     destruct (Qeq_bool (vl + vr) 0) eqn:E.
     - apply Qeq_bool_eq in E. lra.
     - apply Qeq_bool_neq in E. field. exact E.
+  Qed.
+
+  (* the law used by the telescoping theorem IS the law of coupling_index / coupling_state: for an odd state p with
+     right-probability pr, the coupled index is p+1 exactly for the uniforms u < pr and p-1 exactly for u >= pr; hence for
+     u uniform on [0,1) the two targets have probabilities |[0,pr)| = pr and |[pr,1)| = 1 - pr, which is prob_to *)
+  Theorem coupling_law xs p pr : Nat.even p = false -> (p + 1 < length xs)%nat -> prob_right_at mid mass xs p = Some pr ->
+    (forall u, coupling_index mid mass xs p u = Some (p + 1)%nat <-> u < pr)
+    /\ (forall u, coupling_index mid mass xs p u = Some (p - 1)%nat <-> pr <= u)
+    /\ prob_to mid mass xs p (p + 1) == pr /\ prob_to mid mass xs p (p - 1) == 1 - pr
+    /\ (forall t, t <> (p + 1)%nat -> t <> (p - 1)%nat -> prob_to mid mass xs p t == 0).
+  Proof.
+    intros Hodd Hp Hpr.
+    assert (P1 : (1 <= p)%nat) by (destruct p; [discriminate|lia]).
+    split; [|split; [|split; [|split]]].
+    - intros u. unfold coupling_index. rewrite Hodd, Hpr.
+      destruct (Qltb u pr) eqn:E.
+      + apply Qltb_lt in E. split; [intros _; exact E|intros _; f_equal; lia].
+      + apply Qltb_false in E. split; [intros H; injection H as H; lia|intros H; lra].
+    - intros u. unfold coupling_index. rewrite Hodd, Hpr.
+      destruct (Qltb u pr) eqn:E.
+      + apply Qltb_lt in E. split; [intros H; injection H as H; lia|intros H; lra].
+      + apply Qltb_false in E. split; [intros _; exact E|intros _; f_equal; lia].
+    - unfold prob_to. rewrite Hodd, Hpr, Nat.eqb_refl.
+      destruct (Nat.eqb_spec p (p + 1 + 1)); [lia|lra].
+    - unfold prob_to. rewrite Hodd, Hpr.
+      destruct (Nat.eqb_spec (p + 1) (p - 1)); [lia|]. destruct (Nat.eqb_spec p (p - 1 + 1)); [lra|lia].
+    - intros t T1 T2. unfold prob_to. rewrite Hodd, Hpr.
+      destruct (Nat.eqb_spec (p + 1) t); [congruence|]. destruct (Nat.eqb_spec p (t + 1)); [lia|lra].
+  Qed.
+  (* an even state is copied with probability 1 *)
+  Theorem coupling_law_even xs p u : Nat.even p = true ->
+    coupling_index mid mass xs p u = Some p /\ prob_to mid mass xs p p == 1 /\ (forall t, t <> p -> prob_to mid mass xs p t == 0).
+  Proof.
+    intros E. unfold coupling_index, prob_to. rewrite E, Nat.eqb_refl. split; [reflexivity|]. split; [lra|].
+    intros t Ht. destruct (Nat.eqb_spec p t); [congruence|lra].
+  Qed.
+  (* coupling_state (the code's function of the increment) returns the state at coupling_index, when the origin index is even *)
+  Theorem coupling_state_is_index xs o2 p u : (p < length xs)%nat ->
+    coupling_state mid mass xs (2 * o2) (Z.of_nat p - Z.of_nat (2 * o2)) u
+    = option_map (nthq xs) (coupling_index mid mass xs p u).
+  Proof.
+    intros Hp. unfold coupling_state, coupling_index.
+    assert (Pos : position (2 * o2) (Z.of_nat p - Z.of_nat (2 * o2)) = p).
+    { unfold position. replace (Z.of_nat (2 * o2) + (Z.of_nat p - Z.of_nat (2 * o2)))%Z with (Z.of_nat p) by lia. apply Nat2Z.id. }
+    assert (Par : Z.eqb ((Z.of_nat p - Z.of_nat (2 * o2)) mod 2) 0 = Nat.even p).
+    { replace (Z.of_nat p - Z.of_nat (2 * o2))%Z with (Z.of_nat p + (- Z.of_nat o2) * 2)%Z by lia.
+      rewrite Z.mod_add by lia. destruct (Nat.even p) eqn:E.
+      - apply Nat.even_spec in E. destruct E as [m ->]. apply Z.eqb_eq.
+        replace (Z.of_nat (2 * m)) with (0 + Z.of_nat m * 2)%Z by lia. rewrite Z.mod_add by lia. reflexivity.
+      - assert (O : Nat.odd p = true) by (rewrite <- Nat.negb_even, E; reflexivity).
+        apply Nat.odd_spec in O. destruct O as [m ->]. apply Z.eqb_neq.
+        replace (Z.of_nat (2 * m + 1)) with (1 + Z.of_nat m * 2)%Z by lia. rewrite Z.mod_add by lia. discriminate. }
+    rewrite Pos, Par. destruct (Nat.even p); [reflexivity|].
+    destruct (prob_right_at mid mass xs p) as [pr|]; [|reflexivity]. cbn [option_map].
+    destruct (Qltb u pr); reflexivity.
   Qed.
 End Coupling.
 
 Section Telescoping.
-  Variable mid : Q -> Q -> Q.
-  Hypothesis mid_between : forall x y, x < y -> x < mid x y /\ mid x y < y.
-  Hypothesis mid_refl : forall x, mid x x == x.
-  Hypothesis mid_proper : forall x x' y y', x == x' -> y == y' -> mid x y == mid x' y'.
+  Variables mc mf : Q -> Q -> Q.     (* grid.middle of the coarse level (used by refine and by the coarse cells) and of the fine level *)
+  Hypothesis mc_between : forall x y, x < y -> x < mc x y /\ mc x y < y.
+  Hypothesis mc_refl : forall x, ~ x == 0 -> mc x x == x.
+  Hypothesis mf_between : forall x y, x < y -> x < mf x y /\ mf x y < y.
+  Hypothesis mf_refl : forall x, ~ x == 0 -> mf x x == x.
   Variable mass : Q -> Q -> Q.
-  Hypothesis mass_add : forall a b c, a <= b -> b <= c -> mass a c == mass a b + mass b c.
-  Hypothesis mass_pos : forall a b, a <= b -> 0 <= mass a b.
+  Hypothesis mass_add : forall a b c, a <= b -> b <= c -> (c < 0 \/ 0 < a) -> mass a c == mass a b + mass b c.
+  Hypothesis mass_pos : forall a b, a <= b -> (b < 0 \/ 0 < a) -> 0 <= mass a b.
   Hypothesis mass_proper : forall a a' b b', a == a' -> b == b' -> mass a b == mass a' b'.
 
   Variable xs : list Q.
   Variable o : nat.
   Hypothesis Hincr : incr xs.
-  Hypothesis Hlen : (3 <= length xs)%nat.
-  Let xs' := refine_axis mid xs.
+  Hypothesis Hends : ends_ok xs.
+  Hypothesis Ho1 : (1 <= o)%nat.
+  Hypothesis Ho2 : (o + 1 < length xs)%nat.
+  Hypothesis Hzero : nthq xs o == 0.
+  Let xs' := refine_axis mc xs.
   Let o' := (2 * o)%nat.
 
+  Lemma Hlen : (3 <= length xs)%nat.
+  Proof. lia. Qed.
   Lemma xs_nonempty : xs <> [].
-  Proof. intro E. rewrite E in Hlen. simpl in Hlen. lia. Qed.
+  Proof. intro E. rewrite E in Ho2. simpl in Ho2. lia. Qed.
   Lemma len' : length xs' = (2 * length xs - 1)%nat.
   Proof. apply refine_length. apply xs_nonempty. Qed.
   Lemma incr' : incr xs'.
   Proof. apply refine_incr; assumption. Qed.
+  Lemma ends' : ends_ok xs'.
+  Proof.
+    destruct Hends as [E0 EN]. pose proof len' as L. split.
+    - unfold xs'. change 0%nat with (2 * 0)%nat. rewrite refine_even by lia. exact E0.
+    - rewrite L. replace (2 * length xs - 1 - 1)%nat with (2 * (length xs - 1))%nat by lia.
+      unfold xs'. rewrite refine_even by lia. exact EN.
+  Qed.
+  Lemma zero' : nthq xs' o' == 0.
+  Proof. unfold xs', o'. rewrite refine_even by lia. exact Hzero. Qed.
+  Lemma fine_sign p : (p < length xs')%nat -> ((p < o')%nat -> nthq xs' p < 0) /\ ((o' < p)%nat -> 0 < nthq xs' p).
+  Proof.
+    intros Hp. pose proof zero' as Z. split; intros H; rewrite <- Z; apply incr_nth_lt; try apply incr'; try lia.
+    rewrite len'. unfold o'. lia.
+  Qed.
+  Lemma fine_side p : (p < length xs')%nat -> p <> o' -> cell_hi mf xs' p < 0 \/ 0 < cell_lo mf xs' p.
+  Proof.
+    intros Hp Hne. pose proof len' as L.
+    destruct (cell_side mf mf_between mf_refl xs' o' incr' ends' ltac:(unfold o'; lia) ltac:(rewrite L; unfold o'; lia) zero' p Hp) as [S1 S2].
+    destruct (Nat.lt_ge_cases p o'); [left; apply S1; assumption|right; apply S2; lia].
+  Qed.
 
-  Local Notation f t p := (q_entry mid mass xs' o' p * prob_to mid mass xs' p t) (only parsing).
+  Local Notation f t p := (q_entry mf mass xs' o' p * prob_to mf mass xs' p t) (only parsing).
 
-  Lemma f_even j : (j < length xs)%nat -> j <> o -> f (2 * j) (2 * j) == mass (cell_lo mid xs' (2 * j)) (cell_hi mid xs' (2 * j)).
+  Lemma f_even j : (j < length xs)%nat -> j <> o -> f (2 * j) (2 * j) == mass (cell_lo mf xs' (2 * j)) (cell_hi mf xs' (2 * j)).
   Proof.
     intros Hj Hne. unfold prob_to, q_entry.
     assert (Ev : Nat.even (2 * j) = true) by (rewrite Nat.even_mul; reflexivity). rewrite Ev, Nat.eqb_refl.
@@ -136,26 +220,28 @@ Section Telescoping.
 
   (* the odd state below 2j sends val_right to 2j *)
   Lemma f_below j : (1 <= j)%nat -> (j < length xs)%nat ->
-    f (2 * j) (2 * j - 1) == val_right mid mass xs' (2 * j - 1).
+    f (2 * j) (2 * j - 1) == val_right mf mass xs' (2 * j - 1).
   Proof.
     intros H1 Hj. unfold prob_to.
     replace (2 * j - 1)%nat with (2 * (j - 1) + 1)%nat by lia. rewrite odd_not_even.
     replace (2 * (j - 1) + 1)%nat with (2 * j - 1)%nat by lia.
-    rewrite <- (flow_right mid mid_between mid_refl mass mass_add mass_pos xs' o' (2 * j - 1) incr')
-      by (try rewrite len'; unfold o'; lia).
-    destruct (prob_right_at mid mass xs' (2 * j - 1)) as [pr|]; [|lra].
+    assert (Pl : (2 * j - 1 < length xs')%nat) by (rewrite len'; lia).
+    assert (Pn : (2 * j - 1)%nat <> o') by (unfold o'; lia).
+    rewrite <- (flow_right mf mf_between mf_refl mass mass_add mass_pos xs' o' (2 * j - 1) incr' ends' Pl Pn (fine_side _ Pl Pn)).
+    destruct (prob_right_at mf mass xs' (2 * j - 1)) as [pr|]; [|lra].
     replace (2 * j - 1 + 1 =? 2 * j)%nat with true by (symmetry; apply Nat.eqb_eq; lia).
     replace (2 * j - 1 =? 2 * j + 1)%nat with false by (symmetry; apply Nat.eqb_neq; lia). lra.
   Qed.
 
   (* the odd state above 2j sends val_left to 2j *)
   Lemma f_above j : (j + 1 < length xs)%nat ->
-    f (2 * j) (2 * j + 1) == val_left mid mass xs' (2 * j + 1).
+    f (2 * j) (2 * j + 1) == val_left mf mass xs' (2 * j + 1).
   Proof.
     intros Hj. unfold prob_to. rewrite odd_not_even.
-    rewrite <- (flow_left mid mid_between mid_refl mass mass_add mass_pos xs' o' (2 * j + 1) incr')
-      by (try rewrite len'; unfold o'; lia).
-    destruct (prob_right_at mid mass xs' (2 * j + 1)) as [pr|]; [|lra].
+    assert (Pl : (2 * j + 1 < length xs')%nat) by (rewrite len'; lia).
+    assert (Pn : (2 * j + 1)%nat <> o') by (unfold o'; lia).
+    rewrite <- (flow_left mf mf_between mf_refl mass mass_add mass_pos xs' o' (2 * j + 1) incr' ends' Pl Pn (fine_side _ Pl Pn)).
+    destruct (prob_right_at mf mass xs' (2 * j + 1)) as [pr|]; [|lra].
     replace (2 * j + 1 + 1 =? 2 * j)%nat with false by (symmetry; apply Nat.eqb_neq; lia).
     rewrite Nat.eqb_refl. lra.
   Qed.
@@ -165,71 +251,79 @@ Section Telescoping.
   Proof.
     intros Hp N1 N2 N3. unfold prob_to. destruct (Nat.even p) eqn:E.
     - destruct (Nat.eqb_spec p (2 * j)); [contradiction|lra].
-    - destruct (prob_right_at mid mass xs' p) as [pr|]; [|lra].
+    - destruct (prob_right_at mf mass xs' p) as [pr|]; [|lra].
       destruct (Nat.eqb_spec (p + 1) (2 * j)); [contradiction|].
       destruct (Nat.eqb_spec p (2 * j + 1)); [contradiction|lra].
   Qed.
 
   Lemma f_below_t j t : t = (2 * j)%nat -> (1 <= j)%nat -> (j < length xs)%nat ->
-    f t (2 * j - 1) == val_right mid mass xs' (2 * j - 1).
+    f t (2 * j - 1) == val_right mf mass xs' (2 * j - 1).
   Proof. intros ->. apply f_below. Qed.
   Lemma f_above_t j t : t = (2 * j)%nat -> (j + 1 < length xs)%nat ->
-    f t (2 * j + 1) == val_left mid mass xs' (2 * j + 1).
+    f t (2 * j + 1) == val_left mf mass xs' (2 * j + 1).
   Proof. intros ->. apply f_above. Qed.
   Lemma f_zero_elsewhere_t j t p : t = (2 * j)%nat -> (p < length xs')%nat -> p <> (2 * j)%nat -> (p + 1)%nat <> (2 * j)%nat -> p <> (2 * j + 1)%nat ->
     f t p == 0.
   Proof. intros ->. apply f_zero_elsewhere. Qed.
 
-  (* geometry of the refined axis around the coarse state j *)
+  (* geometry of the refined axis around the coarse state j: coarse cells (coarse middle) are bounded by the odd fine states *)
   Lemma fine_cell_order j : (j < length xs)%nat ->
-    cell_lo mid xs' (2 * j) <= cell_hi mid xs' (2 * j)
-    /\ ((1 <= j)%nat -> nthq xs' (2 * j - 1) <= cell_lo mid xs' (2 * j) /\ cell_hi mid xs' (2 * j - 1) = cell_lo mid xs' (2 * j)
-                        /\ cell_lo mid xs j = nthq xs' (2 * j - 1))
-    /\ ((j + 1 < length xs)%nat -> cell_hi mid xs' (2 * j) <= nthq xs' (2 * j + 1) /\ cell_lo mid xs' (2 * j + 1) = cell_hi mid xs' (2 * j)
-                        /\ cell_hi mid xs j = nthq xs' (2 * j + 1))
-    /\ (j = 0%nat -> cell_lo mid xs j = cell_lo mid xs' (2 * j))
-    /\ ((j + 1 = length xs)%nat -> cell_hi mid xs j = cell_hi mid xs' (2 * j)).
+    cell_lo mf xs' (2 * j) <= cell_hi mf xs' (2 * j)
+    /\ ((1 <= j)%nat -> nthq xs' (2 * j - 1) <= cell_lo mf xs' (2 * j) /\ cell_hi mf xs' (2 * j - 1) = cell_lo mf xs' (2 * j)
+                        /\ cell_lo mc xs j = nthq xs' (2 * j - 1))
+    /\ ((j + 1 < length xs)%nat -> cell_hi mf xs' (2 * j) <= nthq xs' (2 * j + 1) /\ cell_lo mf xs' (2 * j + 1) = cell_hi mf xs' (2 * j)
+                        /\ cell_hi mc xs j = nthq xs' (2 * j + 1))
+    /\ (j = 0%nat -> cell_lo mc xs j == cell_lo mf xs' (2 * j))
+    /\ ((j + 1 = length xs)%nat -> cell_hi mc xs j == cell_hi mf xs' (2 * j)).
   Proof.
-    intros Hj. pose proof len' as L. pose proof incr' as I'.
+    intros Hj. pose proof len' as L. pose proof incr' as I'. pose proof ends' as E'.
     assert (P : (2 * j < length xs')%nat) by (rewrite L; lia).
-    split; [apply (cell_lo_hi mid mid_between mid_refl xs' _ I' P)|]. split; [|split; [|split]].
-    - intros H1. destruct (cell_lo_le mid mid_between mid_refl xs' (2 * j) I' P) as (_ & _ & C). split; [|split].
+    split; [apply (cell_lo_hi mf mf_between mf_refl xs' _ I' E' P)|]. split; [|split; [|split]].
+    - intros H1. destruct (cell_lo_le mf mf_between mf_refl xs' (2 * j) I' E' P) as (_ & _ & C). split; [|split].
       + apply Qlt_le_weak. apply C. lia.
-      + rewrite (cell_share mid xs' (2 * j - 1)) by lia. f_equal. lia.
+      + rewrite (cell_share mf xs' (2 * j - 1)) by lia. f_equal. lia.
       + unfold cell_lo. rewrite left_point_inner by lia. replace (2 * j - 1)%nat with (2 * (j - 1) + 1)%nat by lia.
         unfold xs'. rewrite refine_odd by lia. replace (j - 1 + 1)%nat with j by lia. reflexivity.
-    - intros H1. destruct (cell_hi_ge mid mid_between mid_refl xs' (2 * j) I' P) as (_ & C). split; [|split].
+    - intros H1. destruct (cell_hi_ge mf mf_between mf_refl xs' (2 * j) I' E' P) as (_ & C). split; [|split].
       + apply Qlt_le_weak. apply C. lia.
-      + rewrite (cell_share mid xs' (2 * j)) by lia. reflexivity.
+      + rewrite (cell_share mf xs' (2 * j)) by lia. reflexivity.
       + unfold cell_hi. rewrite right_point_inner by lia. unfold xs'. rewrite refine_odd by lia. reflexivity.
-    - intros ->. unfold cell_lo, left_point. simpl Nat.pred. unfold xs'.
-      change (2 * 0)%nat with 0%nat. rewrite <- (refine_even mid xs 0) by lia. reflexivity.
+    - intros ->. unfold cell_lo, left_point. simpl Nat.pred. change (2 * 0)%nat with 0%nat.
+      assert (X : nthq xs' 0 = nthq xs 0) by (unfold xs'; change 0%nat with (2 * 0)%nat at 1; apply refine_even; lia).
+      rewrite X. destruct Hends as [E0 _].
+      rewrite (mc_refl _ (neq0_neg _ E0)), (mf_refl _ (neq0_neg _ E0)). reflexivity.
     - intros E. unfold cell_hi. rewrite (right_point_last xs j) by lia. rewrite (right_point_last xs' (2 * j)) by lia.
-      unfold xs'. rewrite refine_even by lia. reflexivity.
+      assert (X : nthq xs' (2 * j) = nthq xs j) by (unfold xs'; apply refine_even; lia).
+      rewrite X. destruct Hends as [_ EN]. replace (length xs - 1)%nat with j in EN by lia.
+      rewrite (mc_refl _ (neq0_pos _ EN)), (mf_refl _ (neq0_pos _ EN)). reflexivity.
   Qed.
 
   Theorem telescoping_1d j : (j < length xs)%nat -> j <> o ->
-    inflow mid mass xs' o' (2 * j) == q_entry mid mass xs o j.
+    inflow mf mass xs' o' (2 * j) == q_entry mc mass xs o j.
   Proof.
     intros Hj Hne. pose proof len' as L.
     destruct (fine_cell_order j Hj) as (O1 & O2 & O3 & O4 & O5).
-    assert (Q : q_entry mid mass xs o j = mass (cell_lo mid xs j) (cell_hi mid xs j)).
+    assert (Q : q_entry mc mass xs o j = mass (cell_lo mc xs j) (cell_hi mc xs j)).
     { unfold q_entry. destruct (Nat.eqb_spec j o); [contradiction|reflexivity]. }
     rewrite Q. unfold inflow.
+    assert (SG := fine_sign).
+    assert (Side : nthq xs' (2 * j + 1) < 0 \/ 0 < cell_lo mf xs' (2 * j) \/ True) by (right; right; exact I).
     destruct (Nat.eq_dec j 0) as [J0|J0]; [|destruct (Nat.eq_dec (j + 1) (length xs)) as [JN|JN]].
-    - (* first coarse state *)
+    - (* first coarse state: j = 0 < o *)
       rewrite (qsum_support [(2 * j)%nat; (2 * j + 1)%nat]).
       + unfold qsum. cbn [map fold_right]. rewrite f_even by assumption. rewrite f_above by lia.
-        destruct (O3 ltac:(lia)) as (A1 & A2 & A3). rewrite (O4 J0), A3. unfold val_left. rewrite A2.
-        rewrite (mass_add _ _ _ O1 A1). lra.
+        destruct (O3 ltac:(lia)) as (A1 & A2 & A3).
+        rewrite (mass_proper _ _ _ _ (O4 J0) (Qeq_refl _)), A3. unfold val_left. rewrite A2.
+        rewrite (mass_add _ _ _ O1 A1); [lra|]. left. apply SG; [rewrite L; lia|unfold o'; lia].
       + constructor; [simpl; lia|]. constructor; [simpl; tauto|constructor].
       + intros s [<-|[<-|[]]]; rewrite L; lia.
       + intros p Hp Hn. apply f_zero_elsewhere; [lia| | |]; intro E; apply Hn; simpl; lia.
-    - (* last coarse state *)
+    - (* last coarse state: j = n-1 > o *)
       rewrite (qsum_support [(2 * j - 1)%nat; (2 * j)%nat]).
       + unfold qsum. cbn [map fold_right]. rewrite f_even by assumption. rewrite f_below by lia.
-        destruct (O2 ltac:(lia)) as (A1 & A2 & A3). rewrite (O5 JN), A3. unfold val_right. rewrite A2.
-        rewrite (mass_add _ _ _ A1 O1). lra.
+        destruct (O2 ltac:(lia)) as (A1 & A2 & A3).
+        rewrite (mass_proper _ _ _ _ (Qeq_refl _) (O5 JN)), A3. unfold val_right. rewrite A2.
+        rewrite (mass_add _ _ _ A1 O1); [lra|]. right. apply SG; [rewrite L; lia|unfold o'; lia].
       + constructor; [simpl; lia|]. constructor; [simpl; tauto|constructor].
       + intros s [<-|[<-|[]]]; rewrite L; lia.
       + intros p Hp Hn. apply f_zero_elsewhere; [lia| | |]; intro E; apply Hn; simpl; lia.
@@ -238,22 +332,24 @@ Section Telescoping.
       + unfold qsum. cbn [map fold_right]. rewrite f_even by assumption. rewrite f_below by lia. rewrite f_above by lia.
         destruct (O2 ltac:(lia)) as (A1 & A2 & A3). destruct (O3 ltac:(lia)) as (B1 & B2 & B3).
         rewrite A3, B3. unfold val_right, val_left. rewrite A2, B2.
-        rewrite (mass_add (nthq xs' (2 * j - 1)) (cell_lo mid xs' (2 * j)) (nthq xs' (2 * j + 1))) by lra.
-        rewrite (mass_add _ _ _ O1 B1). lra.
+        assert (S3 : nthq xs' (2 * j + 1) < 0 \/ 0 < nthq xs' (2 * j - 1)).
+        { destruct (Nat.lt_ge_cases j o); [left|right]; apply SG; try (rewrite L; lia); unfold o'; lia. }
+        rewrite (mass_add (nthq xs' (2 * j - 1)) (cell_lo mf xs' (2 * j)) (nthq xs' (2 * j + 1))) by (try lra; exact S3).
+        rewrite (mass_add _ _ _ O1 B1); [lra|]. destruct S3; [left; assumption|right; lra].
       + constructor; [simpl; lia|]. constructor; [simpl; lia|]. constructor; [simpl; tauto|constructor].
       + intros s [<-|[<-|[<-|[]]]]; rewrite L; lia.
       + intros p Hp Hn. apply f_zero_elsewhere; [lia| | |]; intro E; apply Hn; simpl; lia.
   Qed.
 
   (* what is sent to the coarse origin (coupled increment 0): the part of the old central cell outside the new one *)
-  Theorem sent_to_origin : (1 <= o)%nat -> (o + 1 < length xs)%nat ->
-    inflow mid mass xs' o' o' == mass (nthq xs' (o' - 1)) (cell_lo mid xs' o') + mass (cell_hi mid xs' o') (nthq xs' (o' + 1)).
+  Theorem sent_to_origin :
+    inflow mf mass xs' o' o' == mass (nthq xs' (o' - 1)) (cell_lo mf xs' o') + mass (cell_hi mf xs' o') (nthq xs' (o' + 1)).
   Proof.
-    intros H1 H2. pose proof len' as L. unfold inflow.
+    pose proof len' as L. unfold inflow.
     rewrite (qsum_support [(2 * o - 1)%nat; (2 * o + 1)%nat]).
     - unfold qsum. cbn [map fold_right]. rewrite (f_below_t o o') by (unfold o'; lia). rewrite (f_above_t o o') by (unfold o'; lia).
       destruct (fine_cell_order o ltac:(lia)) as (_ & O2 & O3 & _).
-      destruct (O2 H1) as (_ & A2 & _). destruct (O3 H2) as (_ & B2 & _).
+      destruct (O2 Ho1) as (_ & A2 & _). destruct (O3 Ho2) as (_ & B2 & _).
       unfold val_right, val_left. unfold o'. rewrite A2, B2. lra.
     - constructor; [simpl; lia|]. constructor; [simpl; tauto|constructor].
     - intros s [<-|[<-|[]]]; rewrite L; lia.
@@ -264,8 +360,8 @@ Section Telescoping.
 End Telescoping.
 
 Section Adjacent.
-  Variable mid : Q -> Q -> Q.
-  Hypothesis mid_between : forall x y, x < y -> x < mid x y /\ mid x y < y.
+  Variables mc mf : Q -> Q -> Q.
+  Hypothesis mc_between : forall x y, x < y -> x < mc x y /\ mc x y < y.
   Variable mass : Q -> Q -> Q.
 
   Lemma position_of_index o p : position o (Z.of_nat p - Z.of_nat o) = p.
@@ -287,12 +383,12 @@ Section Adjacent.
      is copied unchanged; any other (odd) one is moved to the left or right neighbour, which are the two coarse
      states adjacent to it *)
   Theorem copy_or_adjacent xs o u : incr xs -> xs <> [] ->
-    let xs' := refine_axis mid xs in
+    let xs' := refine_axis mc xs in
     (forall i, (i < length xs)%nat ->
-        coupling_state mid mass xs' (2 * o) (Z.of_nat (2 * i) - Z.of_nat (2 * o)) u = Some (nthq xs i)
+        coupling_state mf mass xs' (2 * o) (Z.of_nat (2 * i) - Z.of_nat (2 * o)) u = Some (nthq xs i)
         /\ nthq xs' (2 * i) = nthq xs i)
     /\ (forall i v, (i + 1 < length xs)%nat ->
-        coupling_state mid mass xs' (2 * o) (Z.of_nat (2 * i + 1) - Z.of_nat (2 * o)) u = Some v ->
+        coupling_state mf mass xs' (2 * o) (Z.of_nat (2 * i + 1) - Z.of_nat (2 * o)) u = Some v ->
         (v = nthq xs i \/ v = nthq xs (i + 1))
         /\ nthq xs i < nthq xs' (2 * i + 1) < nthq xs (i + 1)).
   Proof.
@@ -303,7 +399,7 @@ Section Adjacent.
       unfold xs'. rewrite refine_even by exact Hl. split; reflexivity.
     - intros i v Hl. unfold coupling_state. rewrite position_of_index, inc_parity.
       rewrite Nat.add_comm, Nat.even_add_mul_2. cbn [Nat.even].
-      destruct (prob_right_at mid mass xs' (1 + 2 * i)) as [pr|]; [|discriminate].
+      destruct (prob_right_at mf mass xs' (1 + 2 * i)) as [pr|]; [|discriminate].
       intros H; injection H as <-. split.
       + destruct (Qltb u pr); [right|left].
         * unfold right_point. rewrite L.
@@ -312,8 +408,8 @@ Section Adjacent.
         * unfold left_point.
           match goal with |- nthq _ ?k = _ => replace k with (2 * i)%nat by lia end.
           unfold xs'. apply refine_even. lia.
-      + replace (1 + 2 * i)%nat with (2 * i + 1)%nat by lia. pose proof (refine_odd mid xs i Hl) as RO. fold xs' in RO. rewrite RO.
-        apply mid_between. apply incr_nth_succ; assumption.
+      + replace (1 + 2 * i)%nat with (2 * i + 1)%nat by lia. pose proof (refine_odd mc xs i Hl) as RO. fold xs' in RO. rewrite RO.
+        apply mc_between. apply incr_nth_succ; assumption.
   Qed.
 End Adjacent.
 
@@ -368,62 +464,71 @@ Section Levels.
   Qed.
 End Levels.
 
-(* ---------- statements in terms of an admissible coarse axis *)
+(* ---------- statements in terms of an admissible coarse axis; mc = the coarse level's grid.middle (used by refine and by
+   the coarse chain), mf = the refined level's grid.middle (used by the fine chain and the coupling) *)
 Section Statements.
-  Variable mid : Q -> Q -> Q.
-  Hypothesis mid_between : forall x y, x < y -> x < mid x y /\ mid x y < y.
-  Hypothesis mid_refl : forall x, mid x x == x.
-  Hypothesis mid_proper : forall x x' y y', x == x' -> y == y' -> mid x y == mid x' y'.
+  Variables mc mf : Q -> Q -> Q.
+  Hypothesis mc_between : forall x y, x < y -> x < mc x y /\ mc x y < y.
+  Hypothesis mc_refl : forall x, ~ x == 0 -> mc x x == x.
+  Hypothesis mf_between : forall x y, x < y -> x < mf x y /\ mf x y < y.
+  Hypothesis mf_refl : forall x, ~ x == 0 -> mf x x == x.
   Variable mass : Q -> Q -> Q.
-  Hypothesis mass_add : forall a b c, a <= b -> b <= c -> mass a c == mass a b + mass b c.
-  Hypothesis mass_pos : forall a b, a <= b -> 0 <= mass a b.
+  Hypothesis mass_add : forall a b c, a <= b -> b <= c -> (c < 0 \/ 0 < a) -> mass a c == mass a b + mass b c.
+  Hypothesis mass_pos : forall a b, a <= b -> (b < 0 \/ 0 < a) -> 0 <= mass a b.
   Hypothesis mass_proper : forall a a' b b', a == a' -> b == b' -> mass a b == mass a' b'.
 
-  Lemma admissible_len xs o h : admissible xs o h -> incr xs /\ (3 <= length xs)%nat /\ (1 <= o)%nat /\ (o + 1 < length xs)%nat.
-  Proof. intros (Hi & H1 & H2 & _). repeat split; try assumption; lia. Qed.
+  Lemma admissible_parts xs o h : admissible xs o h ->
+    incr xs /\ ends_ok xs /\ (1 <= o)%nat /\ (o + 1 < length xs)%nat /\ nthq xs o == 0.
+  Proof. intros A. pose proof (admissible_ends xs o h A). destruct A as (Hi & H1 & H2 & _ & H0 & _). tauto. Qed.
+
+  Theorem prob_right_unit_admissible xs o h p pr : admissible xs o h -> (p < length xs)%nat -> p <> o ->
+    prob_right_at mf mass xs p = Some pr -> 0 <= pr <= 1.
+  Proof.
+    intros A Hp Hne. destruct (admissible_parts xs o h A) as (Hi & He & H1 & H2 & H0).
+    apply (prob_right_unit mf); try assumption.
+    destruct (cell_side mf mf_between mf_refl xs o Hi He H1 H2 H0 p Hp) as [S1 S2].
+    destruct (Nat.lt_ge_cases p o); [left; apply S1; assumption|right; apply S2; lia].
+  Qed.
 
   Theorem telescoping_admissible xs o h : admissible xs o h ->
     forall j, (j < length xs)%nat -> j <> o ->
-      inflow mid mass (refine_axis mid xs) (2 * o) (2 * j) == q_entry mid mass xs o j.
+      inflow mf mass (refine_axis mc xs) (2 * o) (2 * j) == q_entry mc mass xs o j.
   Proof.
-    intros A j Hj Hne. destruct (admissible_len xs o h A) as (Hi & H3 & _).
-    apply (telescoping_1d mid); assumption.
+    intros A j Hj Hne. destruct (admissible_parts xs o h A) as (Hi & He & H1 & H2 & H0).
+    apply (telescoping_1d mc mf); assumption.
   Qed.
 
   Theorem sent_to_origin_admissible xs o h : admissible xs o h ->
-    let xs' := refine_axis mid xs in
-    inflow mid mass xs' (2 * o) (2 * o)
-    == mass (nthq xs' (2 * o - 1)) (cell_lo mid xs' (2 * o)) + mass (cell_hi mid xs' (2 * o)) (nthq xs' (2 * o + 1))
-    /\ nthq xs' (2 * o - 1) = cell_lo mid xs o /\ nthq xs' (2 * o + 1) = cell_hi mid xs o.
+    let xs' := refine_axis mc xs in
+    inflow mf mass xs' (2 * o) (2 * o)
+    == mass (nthq xs' (2 * o - 1)) (cell_lo mf xs' (2 * o)) + mass (cell_hi mf xs' (2 * o)) (nthq xs' (2 * o + 1))
+    /\ nthq xs' (2 * o - 1) = cell_lo mc xs o /\ nthq xs' (2 * o + 1) = cell_hi mc xs o.
   Proof.
-    intros A xs'. destruct (admissible_len xs o h A) as (Hi & H3 & H1 & H2). split.
-    - apply (sent_to_origin mid); assumption.
-    - destruct (fine_cell_order mid mid_between mid_refl xs o Hi H3 o ltac:(lia)) as (_ & O2 & O3 & _).
+    intros A xs'. destruct (admissible_parts xs o h A) as (Hi & He & H1 & H2 & H0). split.
+    - apply (sent_to_origin mc mf); assumption.
+    - destruct (fine_cell_order mc mf mc_between mc_refl mf_between mf_refl xs o Hi He H1 H2 o ltac:(lia)) as (_ & O2 & O3 & _).
       destruct (O2 H1) as (_ & _ & E1). destruct (O3 H2) as (_ & _ & E2). split; symmetry; assumption.
   Qed.
 
   (* after refine the even indices carry the old axis and the odd indices the old cell boundaries: the level-(l-1) cell of
      the coarse state x_{2j} is [x_{2j-1}, x_{2j+1}] (the first/last coarse cells are clamped at the end points) *)
   Theorem coarse_grid_is_even_indices xs o h : admissible xs o h ->
-    let xs' := refine_axis mid xs in
+    let xs' := refine_axis mc xs in
     length xs' = (2 * length xs - 1)%nat
     /\ (forall j, (j < length xs)%nat -> nthq xs' (2 * j) = nthq xs j)
-    /\ (forall j, (1 <= j)%nat -> (j < length xs)%nat -> nthq xs' (2 * j - 1) = cell_lo mid xs j)
-    /\ (forall j, (j + 1 < length xs)%nat -> nthq xs' (2 * j + 1) = cell_hi mid xs j)
-    /\ cell_lo mid xs' 0 = cell_lo mid xs 0
-    /\ cell_hi mid xs' (2 * (length xs - 1)) = cell_hi mid xs (length xs - 1).
+    /\ (forall j, (1 <= j)%nat -> (j < length xs)%nat -> nthq xs' (2 * j - 1) = cell_lo mc xs j)
+    /\ (forall j, (j + 1 < length xs)%nat -> nthq xs' (2 * j + 1) = cell_hi mc xs j)
+    /\ cell_lo mf xs' 0 == cell_lo mc xs 0
+    /\ cell_hi mf xs' (2 * (length xs - 1)) == cell_hi mc xs (length xs - 1).
   Proof.
-    intros A xs'. destruct (admissible_len xs o h A) as (Hi & H3 & H1 & H2).
-    assert (N : xs <> []) by (intro E; rewrite E in H3; simpl in H3; lia).
+    intros A xs'. destruct (admissible_parts xs o h A) as (Hi & He & H1 & H2 & H0).
+    assert (N : xs <> []) by (intro E; rewrite E in H2; simpl in H2; lia).
+    pose proof (fine_cell_order mc mf mc_between mc_refl mf_between mf_refl xs o Hi He H1 H2) as F.
     split; [apply refine_length; exact N|]. split; [intros; apply refine_even; assumption|].
     split; [|split; [|split]].
-    - intros j J1 J2. destruct (fine_cell_order mid mid_between mid_refl xs o Hi H3 j J2) as (_ & O2 & _).
-      destruct (O2 J1) as (_ & _ & E). symmetry; exact E.
-    - intros j J. destruct (fine_cell_order mid mid_between mid_refl xs o Hi H3 j ltac:(lia)) as (_ & _ & O3 & _).
-      destruct (O3 J) as (_ & _ & E). symmetry; exact E.
-    - destruct (fine_cell_order mid mid_between mid_refl xs o Hi H3 0 ltac:(lia)) as (_ & _ & _ & O4 & _).
-      symmetry. apply (O4 eq_refl).
-    - destruct (fine_cell_order mid mid_between mid_refl xs o Hi H3 (length xs - 1) ltac:(lia)) as (_ & _ & _ & _ & O5).
-      symmetry. apply O5. lia.
+    - intros j J1 J2. destruct (F j J2) as (_ & O2 & _). destruct (O2 J1) as (_ & _ & E). symmetry; exact E.
+    - intros j J. destruct (F j ltac:(lia)) as (_ & _ & O3 & _). destruct (O3 J) as (_ & _ & E). symmetry; exact E.
+    - destruct (F 0%nat ltac:(lia)) as (_ & _ & _ & O4 & _). symmetry. apply (O4 eq_refl).
+    - destruct (F (length xs - 1)%nat ltac:(lia)) as (_ & _ & _ & _ & O5). symmetry. apply O5. lia.
   Qed.
 End Statements.
